@@ -548,9 +548,46 @@ func recursiveGroup(s *compatSink, g *hx.Gen) {
 	if t == nil {
 		return
 	}
+	// With an empty range somewhere (min > max) the schema is incompatible with itself, and whether that
+	// is found before the reference cycle is entered depends on the map iteration order: keep every
+	// range non-empty so that the verdict of this witness does not depend on the order.
+	dropEmptyRanges(t)
 	r, id := s.emitCompat(t, cloneTy(t), "recursive-identical", true)
 	if r.R == "fuel" || r.R == "panic" {
 		s.finding(Finding{Prop: "C15", What: "ValidateCompatibility does not return a verdict for a recursive scope compared with itself (stack exhaustion)",
 			Cases: []int{id}, Schema: t, Detail: []string{"recursive-scope-self-compat", r.Msg}})
+	}
+}
+
+// dropEmptyRanges removes the upper bound wherever min > max, at every depth.
+func dropEmptyRanges(t *hx.Ty) {
+	if t == nil {
+		return
+	}
+	if t.Min != nil && t.Max != nil {
+		empty := false
+		if t.T == "float" {
+			lo, hi := math.Float64frombits(parseHex(*t.Min)), math.Float64frombits(parseHex(*t.Max))
+			empty = !(lo <= hi)
+		} else {
+			lo, _ := strconv.ParseInt(*t.Min, 10, 64)
+			hi, _ := strconv.ParseInt(*t.Max, 10, 64)
+			empty = lo > hi
+		}
+		if empty {
+			t.Max = nil
+		}
+	}
+	dropEmptyRanges(t.Item)
+	dropEmptyRanges(t.K)
+	dropEmptyRanges(t.V)
+	for _, np := range t.Props {
+		dropEmptyRanges(np.P.Ty)
+	}
+	for _, m := range t.Members {
+		dropEmptyRanges(m.Ty)
+	}
+	for _, o := range t.Objs {
+		dropEmptyRanges(o.Ty)
 	}
 }
